@@ -82,18 +82,25 @@ Outcome(c) == RunFrom(S0(c))
 (***************************************************************************)
 (* Properties                                                              *)
 (***************************************************************************)
+(* the documented rule, independent of Dev: the most authoritative naming chooses the file, *)
+(* then command line > environment > file > framework                                      *)
 Rank == <<"cli", "env", "file", "fw">>
+PChosen(c) == IF "cli" \in c.files THEN "cli" ELSE IF "env" \in c.files THEN "env"
+              ELSE IF "cwd" \in c.files THEN "cwd" ELSE "none"
+PMent(c, src) == IF src = "fw" THEN c.fw
+                 ELSE IF src = "file" THEN (IF PChosen(c) = "none" THEN "no" ELSE c.file)
+                 ELSE IF src = "env" THEN c.env ELSE c.cli
 RECURSIVE TopFrom(_, _)
 TopFrom(c, i) == IF i > Len(Rank) THEN "none"
-                 ELSE IF Ment(c, Rank[i]) # "no" THEN Rank[i] ELSE TopFrom(c, i + 1)
+                 ELSE IF PMent(c, Rank[i]) # "no" THEN Rank[i] ELSE TopFrom(c, i + 1)
 Top(c) == TopFrom(c, 1)
 ValueOf(m) == IF m \in {"A", "B"} THEN m ELSE "D"
-AnyBad(c) == \E i \in 1..4 : Ment(c, Srcs[i]) = "bad"
+AnyBad(c) == \E i \in 1..4 : PMent(c, Srcs[i]) = "bad"
 
 MostAuthoritativeWins ==
-  s.status = "done" => s.eff = (IF Top(s.case) = "none" THEN "D" ELSE ValueOf(Ment(s.case, Top(s.case))))
+  s.status = "done" => s.eff = (IF Top(s.case) = "none" THEN "D" ELSE ValueOf(PMent(s.case, Top(s.case))))
 UnmentionedUntouched ==
-  [][(s.status = "run" /\ Ment(s.case, Order[s.k]) = "no") => s'.eff = s.eff]_s
+  [][(s.status = "run" /\ PMent(s.case, Order[s.k]) = "no") => s'.eff = s.eff]_s
 InvalidStopsStartup == AnyBad(s.case) => s.status # "done"
 ValidStarts == (~AnyBad(s.case)) => s.status # "failed"
 =============================================================================
